@@ -6,10 +6,15 @@ Scripted fault-injecting PettingZoo ParallelEnv for C13 (top-level, picklable).
 sub-environment do `kind`:
   "raise"  raise the exception class named `arg` (see EXC)
   "sleep"  sleep `arg` seconds (longer than every timeout used by the harness), then go on
+  "stuck"  sleep for an hour: the sub-environment never comes back within any test
   "kill"   os.kill(os.getpid(), SIGKILL) — the worker process dies without any reply
 Only the sub-environment whose `index` matches a fault's worker gets that fault (the factory
 `make_fn` filters).  Episodes never end, so the worker never auto-resets (an auto-reset would be
 an extra, uncounted `reset`).
+
+Provenance: every observation is `[index, steps so far]`, every reward is `steps so far`, and the
+remote targets (`probe()`, the property `gauge`, `render()`) return `(index, calls so far)`, so a
+result that belongs to another call (stale, off by one) is visible in its value.
 """
 from __future__ import annotations
 
@@ -26,8 +31,32 @@ class CustomFault(Exception):
     """a user-defined exception type (not a builtin) that must survive the trip to the caller"""
 
 
+class TwoArgsFault(Exception):
+    """constructor does not accept the single positional argument `exctype(value)` passes"""
+
+    def __init__(self, code, msg):
+        super().__init__(f"{code}: {msg}")
+        self.code = code
+
+
+class KwOnlyFault(Exception):
+    def __init__(self, *, msg):
+        super().__init__(msg)
+
+
+class UnpicklableFault(Exception):
+    """carries something that cannot be pickled (a lambda)"""
+
+    def __init__(self, msg):
+        super().__init__(msg, lambda: 0)
+
+
 EXC = {"ValueError": ValueError, "IndexError": IndexError, "RuntimeError": RuntimeError,
-       "ZeroDivisionError": ZeroDivisionError, "CustomFault": CustomFault}
+       "ZeroDivisionError": ZeroDivisionError, "CustomFault": CustomFault,
+       "KeyboardInterrupt": KeyboardInterrupt, "FileNotFoundError": FileNotFoundError,
+       "TwoArgsFault": lambda m: TwoArgsFault(7, m), "KwOnlyFault": lambda m: KwOnlyFault(msg=m),
+       "UnpicklableFault": UnpicklableFault}
+STUCK_S = 3600.0
 
 
 class FaultEnv(ParallelEnv):
@@ -53,6 +82,8 @@ class FaultEnv(ParallelEnv):
                     raise EXC[arg](f"scripted fault in env {self.index} at {command}#{k}")
                 if kind == "sleep":
                     time.sleep(float(arg))
+                elif kind == "stuck":
+                    time.sleep(STUCK_S)
                 elif kind == "kill":
                     os.kill(os.getpid(), signal.SIGKILL)
                     time.sleep(60)
@@ -82,13 +113,24 @@ class FaultEnv(ParallelEnv):
     def step(self, actions):
         self._hit("step")
         z = {a: False for a in self.possible_agents}
-        return (self._obs(), {a: 1.0 for a in self.possible_agents}, dict(z), dict(z),
+        return (self._obs(), {a: float(self.counts["step"]) for a in self.possible_agents}, dict(z), dict(z),
                 {a: {} for a in self.possible_agents})
 
     def probe(self):
-        """target of `call_async("probe")`"""
+        """target of `call_async("probe")` / `call("probe")`"""
         self._hit("call")
-        return self.index
+        return (self.index, self.counts["call"])
+
+    @property
+    def gauge(self):
+        """target of `get_attr("gauge")`: a non-callable attribute whose evaluation is a `call`"""
+        self._hit("call")
+        return (self.index, self.counts["call"])
+
+    def render(self):
+        """target of `render()`"""
+        self._hit("call")
+        return (self.index, self.counts["call"])
 
     def close(self):
         pass
